@@ -167,11 +167,104 @@ def first_actions(co, start, acts):
     return labels, leak
 
 
+OPQ = (r"normalize::Queue::<.*>::(new_feature|feature_finished|new_rule|rule_finished|insert_scenario_event|finished|remove|is_finished_and_emitted)$"
+       r"|Emitter(<.*>)?>?::emit$|take_to_emit$")
+_TAB = {}
+
+
+class HandlerRows:
+    """Deep path table of Normalize::handle_event with the queue operations kept opaque (deep.py): per path the event
+    shape, whether the queue was already finished-and-emitted, and the ordered queue operations / forwards."""
+
+    def __init__(self, F):
+        from . import deep as D
+        self.D = D
+        self.co = handler(F)
+        self.dp = D.Deep(F, self.co, opaque=OPQ, max_paths=4000)
+        self.paths = self.dp.run()
+        if not self.paths:
+            raise Unverifiable("Normalize::handle_event: empty path table")
+        self.ev_root = None
+        for i, nm in self.co.upvar_names().items():
+            if nm in ("event", "ev"):
+                self.ev_root = ("field", ("arg", 1), i)
+        if self.ev_root is None:
+            raise Unverifiable("event parameter of Normalize::handle_event")
+        self.rows = [self._row(p) for p in self.paths]
+
+    def _row(self, p):
+        D = self.D
+        r = {"p": p, "fae": None, "ctx": {}, "acts": []}
+        for a, o in p.conds:
+            if a[0] == "call" and re.search(r"is_finished_and_emitted$", a[1]) and isinstance(o, bool):
+                r["fae"] = o
+            if a[0] == "discr" and isinstance(o, str):
+                adt = self.dp.adt_of.get(a, "")
+                if (adt.startswith("event::") or adt == "std::result::Result") and D.mentions(a[1], lambda x: x == self.ev_root):
+                    vs = frozenset(o.split("|"))
+                    r["ctx"][adt] = (r["ctx"][adt] & vs) if adt in r["ctx"] else vs
+        for i, e in enumerate(p.effects):
+            if e[0] == "call":
+                m = re.search(r"normalize::Queue(::<.*>)?::(\w+)$", e[1])
+                if m and m.group(2) in QUEUE_ACTIONS:
+                    lab = m.group(2)
+                    if lab == "insert_scenario_event":
+                        ra = [x for x in e[2] if D.is_variant(x, "std::option::Option")]
+                        lab += "[rule=" + (ra[0][2] if len(ra) == 1 else "?") + "]"
+                    r["acts"].append((i, lab, e))
+                elif m and m.group(2) == "remove":
+                    r["acts"].append((i, "remove", e))
+                elif re.search(r"take_to_emit$", e[1]):
+                    r["acts"].append((i, "take_to_emit", e))
+            elif e[0] == "await" and e[1][0] == "call":
+                if re.search(r"Writer::handle_event$", e[1][1]):
+                    r["acts"].append((i, "forward", e))
+                elif re.search(r"Emitter(<.*>)?>?::emit$|Emitter::emit$", e[1][1]):
+                    r["acts"].append((i, "emit", e))
+        return r
+
+    def leaf(self, r):
+        for adt in ("event::Rule", "event::Feature", "event::Cucumber", "std::result::Result"):
+            vs = r["ctx"].get(adt)
+            if vs and len(vs) >= 1:
+                if adt == "event::Cucumber" and vs == frozenset(["Feature"]):
+                    continue
+                if adt == "event::Feature" and vs == frozenset(["Rule"]):
+                    continue
+                if adt == "std::result::Result" and vs != frozenset(["Err"]):
+                    continue
+                return adt, vs
+        return None, None
+
+    def outcome(self, p, kind, term):
+        for a, o in p.conds:
+            if a == (kind, term):
+                return o
+        return None
+
+
+def rows(F):
+    if id(F) not in _TAB:
+        _TAB.clear()
+        _TAB[id(F)] = HandlerRows(F)
+    return _TAB[id(F)]
+
+
+def _is_event_rewrap(D, t, ev_root):
+    if t == ev_root:
+        return True
+    for x in D.subterms(t):
+        if x[0] == "variant" and x[1].startswith("event::") and x[1] not in ("event::Event", "event::Metadata"):
+            return False
+        if x[0] in ("call", "await", "unknown", "const"):
+            return False
+    return D.mentions(t, lambda x: x == ev_root)
+
+
 def r1(F, R):
-    co = handler(F)
-    acts = action_sites(co)
-    edges = variant_edges(co)
-    # the four event enums: every variant is either a non-leaf (descended into) or in the table
+    T = rows(F)
+    D = T.D
+    co = T.co
     for adt in ("event::Cucumber", "event::Feature", "event::Rule"):
         a = F.adts.get(("cucumber", adt))
         if a is None:
@@ -180,162 +273,114 @@ def r1(F, R):
             vn = v["name"] if isinstance(v, dict) else v
             R.check((adt, vn) in EXPECTED or (adt, vn) in NON_LEAF, f"dispatch/covers/{adt.rsplit('::', 1)[-1]}::{vn}", co,
                     "variant known to the table", f"{adt}::{vn} is not in the checker's dispatch table (new event variant: extend the table after reading how Normalize orders it)")
+    seen = {}
+    for r in T.rows:
+        if r["fae"] is not False:
+            continue
+        adt, vs = T.leaf(r)
+        if adt is None:
+            R.violation("dispatch/undecided", co, "a path of Normalize::handle_event handles an event without looking at its kind")
+            continue
+        first = [x for x in r["acts"] if x[1] in EXPECTED.values() or x[1].startswith("insert_scenario_event")]
+        for var in sorted(vs):
+            short = f"{adt.rsplit('::', 1)[-1]}::{var}"
+            want = EXPECTED.get((adt, var))
+            if want is None:
+                continue
+            seen.setdefault((adt, var), set())
+            if not first:
+                R.violation(f"dispatch/{short}/no-drop", co, f"a path through the {short} arm reaches the drain loop / return without queuing or forwarding the event: it is dropped")
+                continue
+            R.ok(f"dispatch/{short}/no-drop", co, "every path through the arm queues or forwards the event")
+            lab = first[0][1]
+            seen[(adt, var)].add(lab)
+            if lab == "forward" and want == "forward":
+                sent = first[0][2][1][2][1]
+                R.check(_is_event_rewrap(D, sent, T.ev_root), "dispatch/forward/original-event", co, "forwards the event it matched on",
+                        "the immediately-forwarded arm does not pass the received event to the inner writer")
     for (adt, var), want in EXPECTED.items():
         short = f"{adt.rsplit('::', 1)[-1]}::{var}"
-        es = edges.get((adt, var), [])
-        if not es:
-            R.violation(f"dispatch/{short}", co, f"no match arm of Normalize::handle_event is selected by {short}: the event is not dispatched on")
+        labs = seen.get((adt, var))
+        if labs is None:
+            R.violation(f"dispatch/{short}", co, f"no path of Normalize::handle_event is selected by {short}: the event is not dispatched on")
             continue
-        labels, leak = set(), None
-        for sw, tg in es:
-            ls, lk = first_actions(co, tg, acts)
-            labels |= ls
-            leak = leak or lk
-        R.check(leak is None, f"dispatch/{short}/no-drop", Site(co, es[0][0], "T"), "every path through the arm queues or forwards the event",
-                f"a path through the {short} arm reaches the {leak[0] if leak else ''} without queuing or forwarding the event: it is dropped")
-        R.check(labels == {want}, f"dispatch/{short}", Site(co, es[0][0], "T"), f"-> {want}",
-                f"{short} is handled by {sorted(labels) or 'nothing'}, expected {want}")
-    # forwarded-at-once arms pass the original event (the Result they matched on, re-wrapped)
-    for bb, (lab, st, t) in sorted(acts.items()):
-        if lab != "forward" or any(is_emit(co.blocks[x]["term"]) for x in co.dom[bb] if co.blocks[x]["term"]["k"] == "call"):
-            continue
-        gs = [g for g in A.guards_of(co, st) if "is_finished_and_emitted" in A.describe_operand(co, g.term["discr"])]
-        if gs and gs[0].polarity() is True:
-            continue  # the pass-through forward (R2)
-        sl = A.slice_back(co, [t["args"][1]])
-        R.check(upvar_in(co, sl, "event"), "dispatch/forward/original-event", st, "forwards the event it matched on",
-                "the immediately-forwarded arm does not pass the received event to the inner writer")
-    R.floor(21, "dispatch clauses")
-
-
-def upvar_in(co, sl, name):
-    names = co.upvar_names()
-    return any(names.get(u) == name for u in sl.upvars)
-
-
-def entry_forward(co):
-    """The pass-through forward: the inner handle_event call that is not preceded by any other action."""
-    acts = action_sites(co)
-    labels = []
-    seen, work = set(), [0]
-    firsts = []
-    while work:
-        x = work.pop()
-        if x in seen:
-            continue
-        seen.add(x)
-        if x in acts:
-            firsts.append(acts[x])
-            continue
-        work.extend(co.succ[x])
-    return firsts, acts
+        R.check(labs == {want}, f"dispatch/{short}", co, f"-> {want}", f"{short} is handled by {sorted(labs) or 'nothing'}, expected {want}")
+    R.floor(30, "dispatch clauses")
 
 
 def r2(F, R):
-    co = handler(F)
-    firsts, acts = entry_forward(co)
-    cand = []
-    for lab, st, t in firsts:
-        if lab != "forward":
-            continue
-        for g in A.guards_of(co, st):
-            if "is_finished_and_emitted" in A.describe_operand(co, g.term["discr"]) and g.polarity() is not False:
-                cand.append((st, t, g))
-    if len(cand) != 1:
-        R.violation("pass-through/guarded-forward", co, f"{len(cand)} early forwards guarded by is_finished_and_emitted() (expected 1): events arriving after the run's Finished are not passed through")
-        return
-    st, t, g = cand[0]
-    R.ok("pass-through/polarity", st, "taken when is_finished_and_emitted() is true")
-    sl = A.slice_back(co, [t["args"][1]])
-    R.check(upvar_in(co, sl, "event"), "pass-through/original-event", st, "forwards the original event", "the early forward does not pass the event it received")
-    bad = None
-    seen, work = set(), list(co.succ[st.bb])
-    while work:
-        x = work.pop()
-        if x in seen:
-            continue
-        seen.add(x)
-        tt = co.blocks[x]["term"]
-        if x in acts and x != st.bb:
-            bad = acts[x][0]
-            break
-        if tt["k"] == "call" and (is_emit(tt) or callee_is(tt, r"normalize::Queue::<.*>::remove$") or callee_is(tt, r"take_to_emit$")):
-            bad = callee_path(tt)
-            break
-        work.extend(co.succ[x])
-    R.check(bad is None, "pass-through/returns", st, "returns after forwarding", f"after the pass-through forward the handler goes on to {bad}: the event is handled twice")
+    T = rows(F)
+    D = T.D
+    co = T.co
+    pt = [r for r in T.rows if r["fae"] is True]
+    rest = [r for r in T.rows if r["fae"] is False]
+    R.check(bool(pt) and bool(rest) and len(pt) + len(rest) == len(T.rows), "pass-through/guarded-forward", co, "is_finished_and_emitted() is consulted first on every path",
+            f"{len(pt)} pass-through / {len(rest)} normalising / {len(T.rows) - len(pt) - len(rest)} undecided paths: events arriving after the run's Finished are not passed through")
+    ok_ev, ok_ret = bool(pt), bool(pt)
+    for r in pt:
+        acts = r["acts"]
+        fw = [x for x in acts if x[1] == "forward"]
+        ok_ret = ok_ret and len(acts) == 1 and len(fw) == 1 and not r["p"].cut
+        if fw:
+            ok_ev = ok_ev and _is_event_rewrap(D, fw[0][2][1][2][1], T.ev_root)
+    R.ok("pass-through/polarity", co, "taken when is_finished_and_emitted() is true") if pt else None
+    R.check(ok_ev, "pass-through/original-event", co, "forwards the original event", "the early forward does not pass the event it received")
+    R.check(ok_ret, "pass-through/returns", co, "returns after forwarding", "after the pass-through forward the handler goes on to touch the queue (or forwards nothing): the event is handled twice or lost")
     R.floor(3, "pass-through clauses")
 
 
 # ---- R3: drain loop and run-Finished last -----------------------------------------------------------
 
-def guard_call(co, g):
-    """The call whose result the guard switches on (through moves / downcasts), or None."""
-    d = g.cond_def()
-    if not d or d[0] != "discr":
-        return None
-    l = d[1]["l"]
-    for _ in range(6):
-        dd = A.local_def_desc(co, l)
-        if dd[0] == "call":
-            return dd[2]
-        if dd[0] == "place":
-            l = dd[1]["l"]
-            continue
-        return None
-    return None
-
-
-def some_guard_from(co, site, *regex):
-    """Is `site` guarded by `Some` (discriminant 1) of an Option returned by a call matching regex?"""
-    for g in A.guards_of(co, site):
-        t = guard_call(co, g)
-        if t is not None and callee_is(t, *regex) and list(g.values) == [1]:
-            return True
-    return False
-
-
-def _cyc(co, a, b):
-    return co.site_reaches(a, b) and co.site_reaches(b, a)
-
-
 def r3(F, R):
-    co = handler(F)
-    emits = [(s, t) for s, t in co.calls() if is_emit(t)]
-    removes = [(s, t) for s, t in co.calls(lambda t: callee_is(t, r"normalize::Queue::<.*>::remove$"))]
-    takes = [(s, t) for s, t in co.calls(lambda t: callee_is(t, r"FinishedState::take_to_emit$"))]
-    if not R.check(len(emits) == 1 and len(removes) == 1 and len(takes) == 1, "drain/one-loop", co, "one emit, one remove, one take_to_emit",
-                   f"expected one drain loop: {len(emits)} emit call(s), {len(removes)} remove call(s), {len(takes)} take_to_emit call(s)"):
-        return
-    (es, et), (ms, mt), (ts, tt) = emits[0], removes[0], takes[0]
-    R.check(_cyc(co, es, ms), "drain/loop", ms, "emit and remove form the loop", "queue.remove(..) is not inside the emit loop (an emitted feature is never removed, or removal happens once)")
-    sl = A.slice_back(co, [mt["args"][1]])
-    R.check(es in sl.sites, "drain/remove-emitted-key", ms, "removes the key emit returned", "queue.remove(..) is not given the key that emit(..) returned")
-    ok_some = any(list(g.values) == [1] and g.cond_def() and g.cond_def()[0] == "discr" and "Option" in g.cond_def()[2] for g in A.guards_of(co, ms))
-    R.check(ok_some, "drain/remove-on-some", ms, "remove only when emit returned Some", "queue.remove(..) is not guarded by emit(..) returning Some")
-    R.check(co.dominates(es, ts) and not co.site_reaches(ts, es), "finished/after-drain", ts, "take_to_emit follows the drain loop",
-            "state.take_to_emit() is consulted inside or before the drain loop: the run's Finished can overtake queued events")
-    fins = []
-    for s, t in co.calls():
-        if is_inner_forward(t) and "event::Cucumber::Finished" in A.event_tags(F, co, t["args"][1])[0]:
-            fins.append((s, t))
-    if not R.check(len(fins) == 1, "finished/one-forward", co, "one forward of Cucumber::Finished", f"{len(fins)} forwards of Cucumber::Finished in Normalize::handle_event"):
-        return
-    fs, ft = fins[0]
-    R.check(co.dominates(ts, fs) and some_guard_from(co, fs, r"take_to_emit$"), "finished/only-from-take_to_emit", fs,
-            "Finished forwarded only when take_to_emit() is Some", "Cucumber::Finished is forwarded without take_to_emit() returning Some (emitted early or repeatedly)")
-    R.check(not co.site_reaches(fs, es), "finished/last", fs, "nothing is drained after Finished", "the drain loop can run after Cucumber::Finished was forwarded")
-    # every dispatch action reaches the drain loop (queued events are flushed in the same call)
-    acts = action_sites(co)
-    for bb, (lab, st, t) in sorted(acts.items()):
-        if lab == "forward":
-            continue  # an event forwarded at once changes no queue: nothing new can have become ready
-        R.check(co.site_reaches(st, es), f"drain/after/{lab}", st, "drain loop follows", f"after `{lab}` the handler does not run the drain loop: ready events stay queued")
+    T = rows(F)
+    D = T.D
+    co = T.co
+    n_loop = n_fin = 0
+    for r in T.rows:
+        if r["fae"] is not False:
+            continue
+        p = r["p"]
+        acts = r["acts"]
+        names = [x[1] for x in acts]
+        qa = [x for x in acts if x[1] in QUEUE_ACTIONS or x[1].startswith("insert_scenario_event")]
+        emits = [x for x in acts if x[1] == "emit"]
+        if qa:
+            lab = qa[0][1]
+            R.check(bool(emits) and emits[0][0] > qa[0][0], f"drain/after/{lab}", co, "drain loop follows", f"after `{lab}` the handler does not run the drain loop: ready events stay queued")
+        if not emits:
+            continue
+        em = emits[0]
+        out = T.outcome(p, "discr", ("await", em[2][1], em[2][3]))
+        rem = [x for x in acts if x[1] == "remove"]
+        take = [x for x in acts if x[1] == "take_to_emit"]
+        fins = [x for x in acts if x[1] == "forward" and D.mentions(x[2][1][2][1], lambda y: D.is_variant(y, "event::Cucumber", "Finished")) and x[0] > em[0]]
+        if out == "Some":
+            n_loop += 1
+            R.check(len(rem) == 1 and rem[0][0] > em[0] and p.cut, "drain/loop", co, "emit and remove form the loop",
+                    "after emit(..) returned Some the emitted feature is not removed and the loop re-entered (an emitted feature is never removed, or removal happens once)")
+            if rem:
+                R.check(D.mentions(rem[0][2][2], lambda y: y == ("field", ("as", ("await", em[2][1], em[2][3]), "Some"), 0)), "drain/remove-emitted-key", co,
+                        "removes the key emit returned", "queue.remove(..) is not given the key that emit(..) returned")
+            R.check(not take and not fins, "finished/after-drain", co, "take_to_emit follows the drain loop", "state.take_to_emit() is consulted inside the drain loop: the run's Finished can overtake queued events")
+        elif out == "None":
+            R.check(not rem, "drain/remove-on-some", co, "remove only when emit returned Some", "queue.remove(..) is called although emit(..) returned None")
+            R.check(len(take) == 1 and take[0][0] > em[0], "finished/after-drain", co, "take_to_emit follows the drain loop",
+                    "after the drain loop state.take_to_emit() is not consulted (the run's Finished is never forwarded), or it is consulted before the loop")
+            if take:
+                te = take[0][2]
+                tout = T.outcome(p, "discr", ("call", te[1], te[2], te[4]))
+                if tout == "Some":
+                    n_fin += 1
+                    R.check(len(fins) == 1 and fins[0][0] > take[0][0] and fins[0] is acts[-1] and not p.cut, "finished/only-from-take_to_emit", co,
+                            "Finished forwarded when take_to_emit() is Some, as the last thing", "with take_to_emit() == Some the run's Finished is not forwarded last (and once)")
+                else:
+                    R.check(not fins, "finished/only-from-take_to_emit", co, "no Finished without take_to_emit() == Some", "Cucumber::Finished is forwarded without take_to_emit() returning Some")
+        else:
+            R.violation("drain/loop", co, "the result of emit(..) is not examined")
+        early = [x for x in acts if x[1] == "forward" and D.mentions(x[2][1][2][1], lambda y: D.is_variant(y, "event::Cucumber", "Finished")) and x[0] < em[0]]
+        R.check(not early, "finished/last", co, "nothing is drained after Finished", "Cucumber::Finished is forwarded before the drain loop")
+    R.check(n_loop >= 1 and n_fin >= 1, "drain/one-loop", co, "the drain loop and the final Finished exist", f"{n_loop} looping paths, {n_fin} paths forwarding the run's Finished")
     R.floor(15, "drain clauses")
-
-
-def guard_is_fae(co, g):
-    return "is_finished_and_emitted" in A.describe_operand(co, g.term["discr"])
 
 
 # ---- R4: the finished-state machine ---------------------------------------------------------------
@@ -647,6 +692,46 @@ def r5(F, R):
 
 # ---- R6: nested emitters ------------------------------------------------------------------------------
 
+EMIT_OPQ = r"normalize::Queue::<.*>::remove$|Emitter(<.*>)?>?::(emit|current_item)$|Emitter::(emit|current_item)$|take_to_emit$"
+
+
+def _emit_rows(F, co):
+    """Rows of an Emitter::emit coroutine: (path, ordered acts) with acts = (index, kind, effect); kinds: started /
+    finished (bracket events of Feature / Rule) / forward (any other event) / child (nested emit) / remove / take /
+    current (current_item)."""
+    from . import deep as D
+    dp = D.Deep(F, co, opaque=EMIT_OPQ, max_paths=3000)
+    out = []
+    for p in dp.run():
+        acts = []
+        for i, e in enumerate(p.effects):
+            if e[0] == "await" and e[1][0] == "call":
+                path = e[1][1]
+                if re.search(r"Writer::handle_event$", path):
+                    ev = e[1][2][1]
+                    st = any(D.is_variant(y, "event::Feature", "Started") or D.is_variant(y, "event::Rule", "Started") for y in D.subterms(ev))
+                    fi = any(D.is_variant(y, "event::Feature", "Finished") or D.is_variant(y, "event::Rule", "Finished") for y in D.subterms(ev))
+                    acts.append((i, "started" if st and not fi else "finished" if fi and not st else "forward", e))
+                elif re.search(r"Emitter(<.*>)?>?::emit$|Emitter::emit$", path):
+                    acts.append((i, "child", e))
+            elif e[0] == "call":
+                if re.search(r"normalize::Queue(::<.*>)?::remove$", e[1]):
+                    acts.append((i, "remove", e))
+                elif re.search(r"take_to_emit$", e[1]):
+                    acts.append((i, "take", e))
+                elif re.search(r"Emitter(<.*>)?>?::current_item$|Emitter::current_item$", e[1]):
+                    acts.append((i, "current", e))
+        out.append((p, acts))
+    return D, dp, out
+
+
+def _outcome(p, term):
+    for a, o in p.conds:
+        if a == ("discr", term):
+            return o
+    return None
+
+
 def r6(F, R):
     ems = roles.trait_impl_methods(F, r"normalize::Emitter$", "emit")
     R.check(len(ems) == 4, "emit/impls", None, "4 Emitter::emit impls", f"{len(ems)} Emitter::emit implementations (expected 4)")
@@ -655,107 +740,137 @@ def r6(F, R):
         if co is None:
             R.unverifiable("emit/coroutine", f"{b.short} has no coroutine body")
             continue
-        selfty = b.impl.get("self", "") if b.impl else ""
-        if "ScenariosQueue" in selfty.split("<")[0] or selfty.replace("&'me mut ", "").replace("&mut ", "").startswith("writer::normalize::ScenariosQueue"):
+        selfty = (b.impl.get("self", "") if b.impl else "").replace("&'me mut ", "").replace("&mut ", "")
+        if selfty.startswith("writer::normalize::ScenariosQueue"):
             _scenario_emit(F, R, co)
-            continue
-        if "Queue<event::Source<gherkin::Feature>" in selfty:
-            _keyed_emit(F, R, co, "features", "event::Feature::Started", "event::Feature::Finished", {"event::Rule::Started", "event::Rule::Finished"})
+        elif "Queue<event::Source<gherkin::Feature>" in selfty:
+            _keyed_emit(F, R, co, "features")
         elif "Queue<itertools::Either" in selfty:
             _dispatch_emit(F, R, co)
         else:
-            _keyed_emit(F, R, co, "rule-scenarios", "event::Rule::Started", "event::Rule::Finished", set())
+            _keyed_emit(F, R, co, "rule-scenarios")
     R.floor(20, "nested emitter clauses")
 
 
-def _fwds(F, co):
-    out = []
-    for st, t in co.calls():
-        if is_inner_forward(t):
-            out.append((st, t, A.event_tags(F, co, t["args"][1])[0]))
-    return out
+def _keyed_emit(F, R, co, nm):
+    D, dp, rows_ = _emit_rows(F, co)
+    n_started = n_finished = n_none = n_loop = 0
+    for p, acts in rows_:
+        kinds = [k for _, k, _ in acts]
+        st = [x for x in acts if x[1] == "started"]
+        fi = [x for x in acts if x[1] == "finished"]
+        ch = [x for x in acts if x[1] == "child"]
+        tk = [x for x in acts if x[1] == "take"]
+        rm = [x for x in acts if x[1] == "remove"]
+        other = [x for x in acts if x[1] == "forward"]
+        R.check(not other and len(st) <= 1 and len(fi) <= 1, f"emit/{nm}/forwards", co, "forwards only its own Started / Finished, each at most once per call",
+                f"the {nm} emitter forwards {len(st)} Started, {len(fi)} Finished and {len(other)} other events itself on one path")
+        if st:
+            n_started += 1
+            # consumed: a write of None to an Option that was Some, before the forward (initial.take())
+            consumed = False
+            for e in p.effects[:st[0][0]]:
+                if e[0] == "write" and D.is_variant(e[2], "std::option::Option", "None"):
+                    src = ("discr", _rt(e[1]))
+                    if any(a == src and o == "Some" for a, o in p.conds):
+                        consumed = True
+            R.check(consumed, f"emit/{nm}/started-once", co, "Started only from initial.take()",
+                    f"the {nm} emitter forwards Started without consuming `initial` (it is emitted on every drain, or never)")
+            R.check(all(st[0][0] < c[0] for c in ch), f"emit/{nm}/started-first", co, "Started precedes the children's events", f"the {nm} emitter can forward its Started after events of its children")
+        for c in ch:
+            cur = [x for x in acts if x[1] == "current" and x[0] < c[0]]
+            R.check(bool(cur) and D.mentions(c[2][1], lambda y, cur=cur: y[0] == "call" and y[3] == cur[-1][2][4]), f"emit/{nm}/current_item", co, "children come from current_item()",
+                    f"the {nm} emitter does not take its child through current_item()")
+            out = _outcome(p, ("await", c[2][1], c[2][3]))
+            if out == "Some":
+                n_loop += 1
+                ok = bool(rm) and rm[0][0] > c[0] and p.cut and D.mentions(rm[0][2][2], lambda y, c=c: y == ("field", ("as", ("await", c[2][1], c[2][3]), "Some"), 0))
+                R.check(ok and not fi, f"emit/{nm}/child-removed-and-loop", co, "a finished child is removed and the next one is drained",
+                        f"the {nm} emitter does not remove a finished child (by the key its emit returned) and continue with the next")
+        if fi:
+            n_finished += 1
+            tout = _outcome(p, ("call", tk[0][2][1], tk[0][2][2], tk[0][2][4])) if tk else None
+            R.check(bool(tk) and tk[0][0] < fi[0][0] and tout == "Some", f"emit/{nm}/finished-from-state", co, "Finished only when take_to_emit() is Some",
+                    f"the {nm} emitter forwards Finished without take_to_emit() returning Some")
+            # the drain really ended before: no further child (current_item() None) or the head child is not finished yet
+            cur = [x for x in acts if x[1] == "current" and x[0] < fi[0][0]]
+            drained = any(_outcome(p, ("call", x[2][1], x[2][2], x[2][4])) == "None" for x in cur) or \
+                any(_outcome(p, ("await", c[2][1], c[2][3])) == "None" for c in ch if c[0] < fi[0][0])
+            R.check(drained and all(c[0] < fi[0][0] for c in ch) and fi[0] is acts[-1] and not p.cut, f"emit/{nm}/finished-last", co, "Finished follows the children's drain",
+                    f"the {nm} emitter can forward its Finished before its children are drained (or drain again after it)")
+        if not p.cut:
+            is_some = D.is_variant(p.ret, "std::option::Option", "Some")
+            is_none = D.is_variant(p.ret, "std::option::Option", "None")
+            n_none += 1 if is_none else 0
+            R.check((is_some and bool(fi)) or (is_none and not fi), f"emit/{nm}/remove-me-after-finished", co, "returns Some(key) exactly when it forwarded Finished",
+                    f"the {nm} emitter returns {'Some(key) (= remove me)' if is_some else 'None'} on a path that {'did not forward' if is_some else 'forwarded'} Finished: its queued events are discarded / it is never removed")
+    R.check(n_started >= 1 and n_finished >= 1 and n_none >= 1 and n_loop >= 1, f"emit/{nm}/shape", co, "Started, children, Finished, None paths all exist",
+            f"paths: {n_started} with Started, {n_finished} with Finished, {n_none} returning None, {n_loop} draining a finished child")
 
 
-def _ret_sites(co):
-    some, none = [], []
-    for st, s in co.assigns(lambda s: not s["pl"]["p"] and s["pl"]["l"] == 0 and s["rv"]["k"] == "agg" and s["rv"].get("adt", "").endswith("option::Option")):
-        (some if str(s["rv"]["variant"]) == "Some" else none).append(st)
-    return some, none
-
-
-def _keyed_emit(F, R, co, nm, started, finished, foreign):
-    fw = _fwds(F, co)
-    st_f = [(s, t) for s, t, tags in fw if started in tags and finished not in tags]
-    fi_f = [(s, t) for s, t, tags in fw if finished in tags and started not in tags]
-    other = [(s, t, tags) for s, t, tags in fw if not ((started in tags) ^ (finished in tags))]
-    R.check(len(st_f) == 1 and len(fi_f) == 1 and not other, f"emit/{nm}/forwards", co, "one Started and one Finished forward",
-            f"the {nm} emitter forwards {len(st_f)} Started, {len(fi_f)} Finished and {len(other)} other events itself (expected 1, 1, 0)")
-    if len(st_f) != 1 or len(fi_f) != 1:
-        return
-    (ss, _), (fs, _) = st_f[0], fi_f[0]
-    R.check(some_guard_from(co, ss, r"Option::<.*>::take$", r"option::Option::<T>::take$"), f"emit/{nm}/started-once", ss, "Started only from initial.take()",
-            f"the {nm} emitter forwards Started without consuming `initial` (it is emitted on every drain, or never)")
-    # initial.take(): the receiver is the `initial` field
-    nested = [(s, t) for s, t in co.calls() if is_emit(t)]
-    R.check(len(nested) >= 1, f"emit/{nm}/nested", co, "drains its children", f"the {nm} emitter never calls its children's emit")
-    for s, t in nested:
-        R.check(co.site_reaches(ss, s) and not co.site_reaches(s, ss), f"emit/{nm}/started-first", ss, "Started precedes the children's events",
-                f"the {nm} emitter can forward its Started after events of its children")
-        R.check(co.site_reaches(s, fs) and not co.site_reaches(fs, s), f"emit/{nm}/finished-last", fs, "Finished follows the children's drain",
-                f"the {nm} emitter can forward its Finished before its children are drained (or drain again after it)")
-    R.check(some_guard_from(co, fs, r"take_to_emit$"), f"emit/{nm}/finished-from-state", fs, "Finished only when take_to_emit() is Some",
-            f"the {nm} emitter forwards Finished without take_to_emit() returning Some")
-    some, none = _ret_sites(co)
-    R.check(bool(some) and all(co.dominates(fs, r) for r in some), f"emit/{nm}/remove-me-after-finished", some[0] if some else co,
-            "returns Some(key) only after forwarding Finished", f"the {nm} emitter returns Some(key) (= remove me) on a path that did not forward Finished: its queued events are discarded")
-    R.check(bool(none), f"emit/{nm}/not-finished-none", co, "returns None otherwise", f"the {nm} emitter never returns None")
-    # children are taken through current_item
-    R.check(any(True for s, t in co.calls(lambda t: callee_is(t, r"Emitter::current_item$", r"Emitter<.*>>::current_item$"))), f"emit/{nm}/current_item", co,
-            "children come from current_item()", f"the {nm} emitter does not take its child through current_item()")
+def _rt(place):
+    k = place[0]
+    if k == "deref":
+        return ("deref", place[1])
+    if k == "field":
+        return ("field", _rt(place[1]), place[2])
+    if k == "as":
+        return ("as", _rt(place[1]), place[2])
+    if k == "L":
+        return ("arg", place[2])
+    return place
 
 
 def _dispatch_emit(F, R, co):
     nm = "feature-items"
-    fw = _fwds(F, co)
-    R.check(not fw, f"emit/{nm}/no-own-events", co, "forwards nothing itself", "the feature-items emitter forwards events itself")
-    nested = [(s, t) for s, t in co.calls() if is_emit(t)]
-    R.check(len(nested) == 2, f"emit/{nm}/delegates", co, "delegates to rule / scenario emitters", f"{len(nested)} delegating emit calls (expected 2)")
-    R.check(any(True for s, t in co.calls(lambda t: callee_is(t, r"Emitter::current_item$", r"Emitter<.*>>::current_item$"))), f"emit/{nm}/current_item", co,
-            "child comes from current_item()", "the feature-items emitter does not take its child through current_item()")
+    D, dp, rows_ = _emit_rows(F, co)
+    n = 0
+    for p, acts in rows_:
+        fw = [x for x in acts if x[1] in ("started", "finished", "forward")]
+        ch = [x for x in acts if x[1] == "child"]
+        R.check(not fw, f"emit/{nm}/no-own-events", co, "forwards nothing itself", "the feature-items emitter forwards events itself")
+        R.check(len(ch) <= 1, f"emit/{nm}/delegates", co, "delegates to one child per call", f"{len(ch)} delegating emit calls on one path")
+        if ch:
+            n += 1
+            cur = [x for x in acts if x[1] == "current" and x[0] < ch[0][0]]
+            R.check(bool(cur) and D.mentions(ch[0][2][1], lambda y: y[0] == "call" and y[3] == cur[-1][2][4]), f"emit/{nm}/current_item", co,
+                    "child comes from current_item()", "the feature-items emitter does not take its child through current_item()")
+            out = _outcome(p, ("await", ch[0][2][1], ch[0][2][3]))
+            is_some = D.is_variant(p.ret, "std::option::Option", "Some")
+            R.check((out == "Some") == is_some and (not is_some or D.mentions(p.ret, lambda y: y == ("field", ("as", ("await", ch[0][2][1], ch[0][2][3]), "Some"), 0))),
+                    f"emit/{nm}/passes-child-result", co, "returns the child's `remove me` key", "the feature-items emitter does not hand its child's result on")
+    R.check(n >= 2, f"emit/{nm}/both-kinds", co, "rule and scenario children", f"{n} delegating paths (expected rule and scenario)")
 
 
 def _scenario_emit(F, R, co):
     nm = "scenario-events"
-    fw = _fwds(F, co)
-    if not R.check(len(fw) == 1, f"emit/{nm}/one-forward", co, "one forward per event", f"{len(fw)} forwards in the scenario-events emitter (expected 1)"):
-        return
-    fs, ft, tags = fw[0]
-    cur = [(s, t) for s, t in co.calls(lambda t: callee_is(t, r"Emitter::current_item$", r"Emitter<.*>>::current_item$"))]
-    R.check(len(cur) == 1 and cur[0][0] in A.slice_back(co, [ft["args"][1]]).sites, f"emit/{nm}/forwards-current", fs, "forwards the event current_item() returned",
-            "the forwarded scenario event does not come from current_item()")
-    R.check(len(cur) == 1 and co.site_reaches(fs, cur[0][0]), f"emit/{nm}/loop", fs, "loops until the buffer is empty or the scenario finished", "the scenario-events emitter forwards at most one event per call")
-    some, none = _ret_sites(co)
-    ok_dom = bool(some) and all(co.dominates(fs, r) for r in some)
-    R.check(ok_dom, f"emit/{nm}/remove-me-after-forward", some[0] if some else co, "Some only after the forward", "the scenario-events emitter returns Some(..) before forwarding the event")
-    # Some(..) only when the forwarded event is Scenario::Finished
-    ok_fin = bool(some)
-    for r in some:
-        fin = False
-        for g in A.guards_of(co, r):
-            t = guard_call(co, g)
-            if t is None or list(g.values) != [1] or not callee_is(t, r"bool>?::then$", r"bool::then$", r"::then::<"):
-                continue
-            bl = op_local(t["args"][0])
-            if bl is None:
-                continue
-            trues = [d for d in co.defs.get(bl, []) if d[1] == "assign" and d[2]["rv"]["k"] == "use" and const_int(d[2]["rv"]["op"]) == 1]
-            falses = [d for d in co.defs.get(bl, []) if d[1] == "assign" and d[2]["rv"]["k"] == "use" and const_int(d[2]["rv"]["op"]) == 0]
-            if trues and falses and len(trues) + len(falses) == len(co.defs.get(bl, [])):
-                if all(W.vc_by_adt(co, d[0]).get("event::Scenario") == frozenset(["Finished"]) for d in trues):
-                    fin = True
-        ok_fin = ok_fin and fin
-    R.check(ok_fin, f"emit/{nm}/remove-me-iff-finished", some[0] if some else co, "Some only for Scenario::Finished",
-            "the scenario-events emitter reports the scenario as removable for an event other than Scenario::Finished: later events of the scenario are lost (or it is never removed)")
+    D, dp, rows_ = _emit_rows(F, co)
+    n_fin = n_loop = 0
+    for p, acts in rows_:
+        fw = [x for x in acts if x[1] in ("forward", "started", "finished")]
+        cur = [x for x in acts if x[1] == "current"]
+        if not fw:
+            R.check(D.is_variant(p.ret, "std::option::Option", "None") or p.cut, f"emit/{nm}/nothing-to-forward", co, "None when the buffer is empty", "returns Some without forwarding anything")
+            continue
+        R.check(len(fw) == 1 or p.cut, f"emit/{nm}/one-forward", co, "one forward per buffered event", f"{len(fw)} forwards on one loop turn")
+        f0 = fw[0]
+        R.check(bool(cur) and cur[0][0] < f0[0] and D.mentions(f0[2][1][2][1], lambda y: y[0] == "call" and y[3] == cur[0][2][4]), f"emit/{nm}/forwards-current", co,
+                "forwards the event current_item() returned", "the forwarded scenario event does not come from current_item()")
+        # what kind of scenario event was taken
+        kinds = None
+        for a, o in p.conds:
+            if a[0] == "discr" and dp.adt_of.get(a) == "event::Scenario" and cur and D.mentions(a[1], lambda y: y[0] == "call" and y[3] == cur[0][2][4]):
+                kinds = set(o.split("|"))
+        if p.cut:
+            n_loop += 1
+            R.check(kinds is not None and "Finished" not in kinds, f"emit/{nm}/loop", co, "loops until the buffer is empty or the scenario finished", "the emitter keeps draining after the scenario's Finished event")
+        else:
+            is_some = D.is_variant(p.ret, "std::option::Option", "Some")
+            if is_some:
+                n_fin += 1
+            R.check(is_some == (kinds == {"Finished"}), f"emit/{nm}/remove-me-iff-finished", co, "Some only for Scenario::Finished",
+                    "the scenario-events emitter reports the scenario as removable for an event other than Scenario::Finished (later events of the scenario are lost), or not for Finished (it is never removed)")
+    R.check(n_fin >= 1 and n_loop >= 1, f"emit/{nm}/shape", co, "loop and Finished paths exist", f"{n_loop} looping paths, {n_fin} paths ending the scenario")
 
 
 # ---- R7: routing of a scenario event to its buffer ----------------------------------------------------
@@ -778,7 +893,16 @@ def r7(F, R):
     if R.check(len(calls) == 1, "route/run-level/delegates", ob, "delegates to the feature's queue", f"{len(calls)} delegating calls in the run-level insert_scenario_event"):
         st, t = calls[0]
         recv = A.slice_back(ob, [t["args"][0]])
-        R.check(_param(ob, "feat") in recv.params and any(callee_is(tt, r"LinkedHashMap::<.*>::get_mut$") for _, tt in recv.calls), "route/run-level/feature-by-key", st,
+        def looks_up(tt):
+            if callee_is(tt, r"LinkedHashMap::<.*>::get_mut$"):
+                return True
+            hb = F.callee_body(tt, ob.crate)   # a private lookup helper (`feature_queue_mut(feat)`) keyed by its parameter
+            if hb is not None and hb.arg_count >= 2:
+                for _, t3 in hb.calls(lambda t3: callee_is(t3, r"LinkedHashMap::<.*>::get_mut$")):
+                    if 2 in A.slice_back(hb, [t3["args"][1]]).params:
+                        return True
+            return False
+        R.check(_param(ob, "feat") in recv.params and any(looks_up(tt) for _, tt in recv.calls), "route/run-level/feature-by-key", st,
                 "feature queue looked up by the event's feature", "the feature queue is not looked up by the event's own feature: the event lands in another feature's buffer")
         want = {"rule": 1, "scenario": 2, "event": 4}
         for nm, i in want.items():
